@@ -61,6 +61,19 @@ func Play(beh M, rng *rand.Rand, proj *Projection) ([]M, error) {
 				x.Log.Append(mem.Ev{"k": "wedged", "conn": conn.ID})
 				wedged = true
 			}
+		case "parseparams":
+			// direct call of the documented helper (a panic here kills the process: crash detection)
+			toks := L(st, "toks")
+			text := cz.RenderToks(toks)
+			x.Log.Append(mem.Ev{"k": "x-parseparams-call", "conn": conn.ID})
+			res := wire.ParseParameters(text)
+			zero := true
+			for _, o := range res {
+				if o != 0 {
+					zero = false
+				}
+			}
+			x.Log.Append(mem.Ev{"k": "x-parseparams", "conn": conn.ID, "toks": toks, "n": len(res), "allzero": zero})
 		case "errorcode":
 			// direct call of the public helper on a buffer.Writer (C17: nil error clause)
 			var err error
